@@ -161,6 +161,23 @@ EXTRA6 = {
     "C19": "Shipped snapshots are also served by a simulator brought up with first commands (load <file>).",
     "C20": "Whole passes of the real engine with the answer already waiting in the pass in which the timeout runs out.",
 }
+EXTRA7 = {
+    "C03": "A re-entrant update may also hit the very item being notified (items that share their bytes with no other).",
+    "C05": "Word records at the block's last byte are included (judged on the byte inside the block).",
+    "C06": "Traffic that is not for this client flows during lossy calls and during the silent phase of the gate scenarios.",
+    "C07": "A request whose answers are all lost under a stream of foreign / malformed / unknown datagrams still runs out of attempts in its own time and returns.",
+    "C08": "The manager context is left right after LOCATING_STARTED / CONNECTION_STARTED / GOT_FIRMWARE / GOT_CONFIG of the pilot run; scenarios with the spa's address configured.",
+    "C09": "Scenarios with the spa's address configured, incl. a phase in which the first datagram of every new endpoint is lost; D9 is identified by a blackout or RF-error phase during the discovery.",
+    "C10": "The operating system takes the connection's endpoint away shortly before a reset.",
+    "C12": "Outputs holding a code beyond their label table; the oracle's labels are decoded by the harness from the block.",
+    "C15": "Names and identifiers made of the hello tags' own characters; discovery runs cancelled while they wait.",
+    "C16": "An endpoint error reported in the middle of a session; one blocking socket object opened, closed and opened again.",
+    "C17": "Settings scrambled before a switch; facades built for a spa in which a pump already runs (full stack, real update task).",
+    "C19": "A session of 140 (thorough 400) snapshots logged through the shell's own logfile command (exposed D23, fixed).",
+    "C20": "Spas that name tables which are not shipped: no exception leaves the engine's loop.",
+}
+for _k, _v in EXTRA7.items():
+    EXTRA[_k] = (EXTRA.get(_k, "") + " " + _v).strip()
 for _k, _v in EXTRA6.items():
     EXTRA[_k] = (EXTRA.get(_k, "") + " " + _v).strip()
 for _k, _v in EXTRA.items():
